@@ -967,9 +967,27 @@ pub fn gen_op(m: &Model, p: &Profile, seed: &OpSeed) -> Option<Op> {
         }
         K::Lusers => "LUSERS".to_string(),
         K::Ison => {
-            let n = 1 + s.pick(4);
-            let ns: Vec<String> = (0..n).map(|_| nick_pick(m, p, &mut s, false)).collect();
-            format!("ISON {}", ns.join(" "))
+            if s.chance(12) {
+                // a long list: somebody present, whole blocks of absent nicks, somebody present
+                let present: Vec<String> = m.users.keys().cloned().collect();
+                let mut ns: Vec<String> = vec![];
+                ns.push(present[s.pick(present.len())].clone());
+                let pad = s.pick(20);
+                for i in 0..(19 + pad) {
+                    ns.push(format!("absent{}", i));
+                }
+                ns.push(present[s.pick(present.len())].clone());
+                for i in 0..(20 + s.pick(3)) {
+                    ns.push(format!("gone{}", i));
+                }
+                ns.push(present[s.pick(present.len())].clone());
+                ns.dedup();
+                format!("ISON {}", ns.join(" "))
+            } else {
+                let n = 1 + s.pick(4);
+                let ns: Vec<String> = (0..n).map(|_| nick_pick(m, p, &mut s, false)).collect();
+                format!("ISON {}", ns.join(" "))
+            }
         }
         K::Userhost => {
             let n = 1 + s.pick(4);
